@@ -119,7 +119,7 @@ def main():
     for i, (h, origin) in enumerate(behaviours):
         jobs = 1 if origin.startswith("cex") or rng.random() < 0.7 else 4
         tasks.append((i, h, origin, False, jobs, cache))
-    with mp.get_context("fork").Pool(16) as pool:
+    with mp.get_context("fork").Pool(common.workers()) as pool:
         for r in pool.imap_unordered(replay_task, tasks):
             rep.traces += 1
             rep.evaluations += r["invocations"] + r["oracle_builds"]
